@@ -303,8 +303,11 @@ C15_UNITS += [
     pkunit("timer_vs_unpark_then_innocent", parker_co=True, kind="blocker", rounds=["tpark"], unparkers=1, unparks_each=1, innocent=True, pool_capacity=1, n=400),
     pkunit("handle_timer_vs_unpark_then_innocent", parker_co=True, kind="handle", rounds=["tpark", "tpark"], unparkers=1, unparks_each=2, innocent=True, pool_capacity=1, n=300),
     pkunit("cancel_vs_unpark_then_innocent", parker_co=True, kind="blocker", rounds=["park"], unparkers=1, unparks_each=1, canceller=True, innocent=True, pool_capacity=1, n=300),
+    # the same through a SyncBlocker (Semphore::wait: its Park does not raise the Cancel panic in yield_back, so a Canceled
+    # result reaches the epilogue of park_timeout, which has to consume it whatever the token says; seeded change C09-3)
+    pkunit("cancel_vs_post_then_innocent", parker_co=True, kind="blocker", rounds=["sem"], unparkers=1, unparks_each=1, canceller=True, innocent=True, pool_capacity=1, n=300),
 ]
-PROPS["C02"]["units"] += [dict(u, name="stale_result_" + u["name"]) for u in C15_UNITS if u["name"] in ("reuse_park_cancel", "reuse_sleep_cancel", "reuse_select_cancel")]
+PROPS["C02"]["units"] += [dict(u, name="stale_result_" + u["name"]) for u in C15_UNITS if u["name"] in ("reuse_park_cancel", "reuse_sleep_cancel", "reuse_select_cancel", "reuse_sleep_dropyield_cancel")]
 
 # ---------------------------------------------------------------------------------------------
 # C13: a panic stays in its coroutine; poisoning follows std
@@ -380,7 +383,7 @@ C09_UNITS = [
   + _pick("C13", ("mutex_cancel_in_guard", "mutex_panic_cancel_pending"), "poison_") \
   + _pick("C15", ("reuse_park_cancel", "reuse_sleep_cancel", "reuse_select_cancel", "reuse_sleep_dropyield_cancel",
                   # a cancel racing the unpark that chose this waiter, then an innocent coroutine on the same stack
-                  "cancel_vs_unpark_then_innocent"), "innocent_")
+                  "cancel_vs_unpark_then_innocent", "cancel_vs_post_then_innocent"), "innocent_")
 PROPS["C09"] = dict(assumptions=["socket read/accept/connect cancellation is decided with C18"], units=C09_UNITS)
 
 # ---------------------------------------------------------------------------------------------
@@ -427,8 +430,9 @@ C04_UNITS = [
           n=60, prefill=2, lifo_alloc=True,
           holds=[dict(actor="s1", site="q.cas", nth=1, until_actor="o", until_site="qh.op", until_n=64)]),
     # ABA in plain pop with the queue EMPTY at the stale CAS: the consumer claims the slot the owner is about to push
-    # (pop_index == tail.index) and has to wait for that push (found missing by seeded change C04-3)
-    qunit("spmcq_aba_pop_empty", "spmcq", 0, [qa("o", ["pop"] + ["push", "pop"] * 63 + ["push"]), qa("s1", ["pop"])],
+    # (pop_index == tail.index) and has to wait for that push (found missing by seeded change C04-3); the "nop" gives the
+    # held consumer a moment between the owner's last pop and its next push
+    qunit("spmcq_aba_pop_empty", "spmcq", 0, [qa("o", ["pop"] + ["push", "pop"] * 63 + ["nop", "push"]), qa("s1", ["pop"])],
           n=60, prefill=1, lifo_alloc=True,
           holds=[dict(actor="s1", site="q.cas", nth=1, until_actor="o", until_site="qh.op", until_n=128)]),
     qunit("spmcq_mid", "spmcq", 7, [qa("o", ["push", "push", "push"]), qa("s1", ["pop", "bulk"]), qa("s2", ["pop", "pop"]), qa("s3", ["bulk"])]),
